@@ -65,10 +65,3 @@ extern "C" size_t vh_wrap_raw(const uint8_t *doc, size_t n, unsigned variant, ui
 #endif
 }
 
-// helper for enumerators: write a replayable case file for a failure
-static inline void vh_save_fail_case(const uint8_t *data, size_t n) {
-    if (const char *path = getenv("VH_FAIL")) {
-        FILE *fp = fopen(path, "wb");
-        if (fp) { fwrite(data, 1, n, fp); fclose(fp); }
-    }
-}
